@@ -71,6 +71,8 @@ func allProps() []*Prop {
 		propC14(),
 		propC15(),
 		propC16(),
+		propC17(),
+		propC18(),
 		propC02(),
 		propC04(),
 		propC05(),
@@ -475,5 +477,64 @@ func propC15() *Prop {
 			"thorough": "<= 3 writes",
 		},
 		Outside: []string{"bodies around the 10MB buffering cap (streaming fallback)", "DEFLATE correctness", "q-values"},
+	}
+}
+
+func mainJob(id, fn string, args ...int64) *sym.Job {
+	return &sym.Job{ID: id, Harness: mod + "/cmd/helios." + fn, Args: args, ValidatePaths: 2, Stubs: proxyStubs}
+}
+
+func propC17() *Prop {
+	return &Prop{
+		ID: "C17", Title: "Plugin chain: configured order, rejection stops the chain, startup fails closed",
+		Jobs: func(tier string) []*sym.Job {
+			var js []*sym.Job
+			for k := int64(1); k <= tierPick(tier, 3, 4); k++ {
+				js = append(js, job(fmt.Sprintf("C17a/order-and-gating[k=%d]", k), "plugins", "VerifC17Order", k))
+			}
+			for k := int64(1); k <= tierPick(tier, 2, 3); k++ {
+				js = append(js, job(fmt.Sprintf("C17b/fail-closed[k=%d]", k), "plugins", "VerifC17FailClosed", k))
+			}
+			js = append(js, mainJob("C17b/buildHandler-propagates-the-error", "VerifC18Starts", 0))
+			js = append(js, neg(job("C17/negative-twin", "plugins", "VerifC17Neg")))
+			for _, j := range js {
+				j.MaxPaths = 1000000
+			}
+			return js
+		},
+		Assumptions: append([]string{"the registry is populated by the plugins package's real init functions (executed by the engine) plus three tracing probe plugins registered by the harness", "rejecting plugins: custom-auth (X-API-Key right/wrong), size_limit (declared Content-Length at / above the limit)"}, commonAssumptions...),
+		Bounds: map[string]string{
+			"quick":    "every chain of 1..3 entries drawn from {probeA, probeB, probeC, custom-auth, size_limit, headers, logging, request-id} x key right/wrong x body within/over limit; fail-closed: chains of <= 2 with one of 10 defective entries at any position; buildHandler with an unknown plugin",
+			"thorough": "chains up to 4 (order) / 3 (fail closed)",
+		},
+		Outside: []string{"chains longer than the bound", "gzip in the ordering harness (covered by C15)"},
+	}
+}
+
+func propC18() *Prop {
+	return &Prop{
+		ID: "C18", Title: "Configuration loading: rejects exactly the invalid, accepts all documented forms",
+		Jobs: func(tier string) []*sym.Job {
+			var js []*sym.Job
+			names := []string{"all sections (binary enums)", "backends", "server+tls", "timeouts", "load_balancer", "health_checks", "rate_limit+circuit_breaker", "metrics+admin_api", "logging"}
+			for s := int64(1); s <= 8; s++ {
+				js = append(js, job("C18a/validator-vs-documented["+names[s]+"]", "config", "VerifC18Validate", s))
+			}
+			if tier == "thorough" {
+				j := job("C18a/validator-vs-documented["+names[0]+"]", "config", "VerifC18Validate", 0)
+				j.MaxPaths = 2000000
+				js = append(js, j)
+			}
+			js = append(js, job("C18b/yaml-typed-plugin-options", "plugins", "VerifC18PluginOptions"))
+			js = append(js, mainJob("C18c/accepted-config-starts", "VerifC18Starts", tierPick(tier, 0, 1)))
+			js = append(js, neg(job("C18/negative-twin", "config", "VerifC18Neg")))
+			return js
+		},
+		Assumptions: append([]string{"reference predicate written from README.md and the comments of the shipped helios.yaml; values the code accepts without documentation (log level fatal, format console, negative breaker max_requests) are don't-care", "YAML parsing itself is not encoded: the harness constructs the Config / option maps with the Go types yaml.v3 documents (integer scalar -> int, float -> float64)", "servers are constructed but not started; goroutines spawned by constructors are recorded, not scheduled"}, commonAssumptions...),
+		Bounds: map[string]string{
+			"quick":    "each configuration section with every integer field an arbitrary 64-bit value and every enum over its documented values + empty + an undocumented one; plugin option typing; accepted => starts over 216 symbolic path classes",
+			"thorough": "additionally all sections simultaneously (enums reduced to valid/invalid) - the validator returns on the first error, so combinations matter",
+		},
+		Outside: []string{"YAML syntax, file loading", "TLS file existence"},
 	}
 }
